@@ -269,6 +269,14 @@ theorem step_clock (w : World) (op : Op σ) (t0 : Nat) (h0 : w.st.lastRot = some
       exact ⟨t0, by simp only; rw [this.1, h0], this.2.1, fun ops os => by simp [lastSuccess]⟩
   | setTime t =>
     exact ⟨t0, h0, rfl, fun ops os => by simp [step, lastSuccess]⟩
+  | upgrade auths =>
+    obtain ⟨b, hb⟩ := step_upgrade_fst H V w auths
+    rw [hb]
+    exact ⟨t0, h0, rfl, fun ops os => by simp [lastSuccess]⟩
+  | migrate auths =>
+    obtain ⟨b, hb⟩ := step_migrate_fst H V w auths
+    rw [hb]
+    exact ⟨t0, h0, rfl, fun ops os => by simp [lastSuccess]⟩
 
 theorem run_cons (w : World) (op : Op σ) (ops : List (Op σ)) :
     run H V w (op :: ops) =
@@ -328,8 +336,30 @@ theorem operator_step (w : World) (op : Op σ) :
       have := transferOperatorship_pres _ _ _ _ hr
       exact Or.inr ⟨auths, new, rfl, this.2.2.1, this.2.2.2⟩
   | setTime t => left; rfl
+  | upgrade auths =>
+    left
+    obtain ⟨b, hb⟩ := step_upgrade_fst H V w auths
+    rw [hb]
+  | migrate auths =>
+    left
+    obtain ⟨b, hb⟩ := step_migrate_fst H V w auths
+    rw [hb]
 
 /-! ### non-vacuity (the model RUN in the kernel on a concrete history, toy hash) -/
+/-- the two administrative entry points every upgradable contract has — `upgrade` (here: to the same code) and `migrate` —
+    leave the rotation clock, the configured delay and the ledger clock exactly as they were, whoever calls them and whether
+    they succeed or not: no amount of upgrading re-opens or shortens a rate-limit window (the history theorems above range
+    over these two operations as well) -/
+theorem admin_steps_keep_clock (w : World) (auths : List Addr) :
+    (step H V w (.upgrade auths)).1.st.lastRot = w.st.lastRot ∧ (step H V w (.upgrade auths)).1.st.minDelay = w.st.minDelay ∧
+    (step H V w (.upgrade auths)).1.now = w.now ∧
+    (step H V w (.migrate auths)).1.st.lastRot = w.st.lastRot ∧ (step H V w (.migrate auths)).1.st.minDelay = w.st.minDelay ∧
+    (step H V w (.migrate auths)).1.now = w.now := by
+  obtain ⟨b, hb⟩ := step_upgrade_fst H V w auths
+  obtain ⟨c, hc⟩ := step_migrate_fst H V w auths
+  rw [hb, hc]
+  exact ⟨rfl, rfl, rfl, rfl, rfl, rfl⟩
+
 section NonVacuity
 open Cgp.Toy
 
@@ -365,6 +395,18 @@ theorem clock_history_nonvacuous :
         [(100, 109), (110, 110), (110, 113), (113, 113), (113, 122), (123, 123)] ∧
       (run H0 V0 w0 opsT).1.st.epoch = 4 ∧ (run H0 V0 w0 opsT).1.st.minDelay = 10 := by
   refine ⟨_, rfl, ⟨_, _, rfl⟩, exists_ok_of_isOk _ (by decide +kernel), exists_ok_pair_of_isOk _ (by decide +kernel), ?_⟩
+  decide +kernel
+
+/-- a history with the administrative steps INSIDE a delay window (minimum delay 10, deployed at 100): a migration without an
+    open window is refused, the operator cannot upgrade, the owner can, the operator cannot migrate, the owner can — and the
+    rotation attempted right afterwards (at 105) is still refused for the delay, while the same rotation at 110 goes through -/
+theorem migration_history_nonvacuous :
+    ∃ w0, constructed H0 owner0 operator0 [1] 10 5 [ws0] 100 = some w0 ∧
+      (run H0 V0 w0 [.setTime 105, .migrate [owner0], .upgrade [operator0], .upgrade [owner0], .migrate [operator0],
+          .migrate [owner0], .rotate [] wsB pf0 false, .setTime 110, .rotate [] wsB pf0 false]).2.map gwErr =
+        [none, some .migrationNotAllowed, some .unauthorized, none, some .unauthorized, none,
+         some .insufficientRotationDelay, none, none] := by
+  refine ⟨_, rfl, ?_⟩
   decide +kernel
 
 end NonVacuity
